@@ -52,7 +52,7 @@ let show_sres (r : sres) : string = match r with
   | S_BadIndex -> "BADINDEX"
 
 let show_finding (k : finding) : string = match k with
-  | KfOpenModeFromOptions -> "KfOpenModeFromOptions" | KfAppendOpenOffset -> "KfAppendOpenOffset"
+  | KfAppendOpenOffset -> "KfAppendOpenOffset"
   | KfZeroLenRead -> "KfZeroLenRead" | KfZeroLenReadAt -> "KfZeroLenReadAt" | KfZeroLenWrite -> "KfZeroLenWrite"
   | KfZeroLenWriteAt -> "KfZeroLenWriteAt" | KfWriteAtAppend -> "KfWriteAtAppend" | KfClosedPriority -> "KfClosedPriority"
   | KfUnlinkDropsData -> "KfUnlinkDropsData"
